@@ -89,6 +89,11 @@ def classify_check(c, hres):
         if prev is None or order.index(st) > order.index(prev):
             hres.named[name] = st
         return
+    if "dealloc" in hres.h.ignore and (c.get("function") == "__rust_dealloc" or "kani_lib.c" in (loc.get("file") or "")):
+        # harnesses whose objects are contract stubs holding packed state (modular Reassembler): CBMC's checks on
+        # *deallocating* those stand-in objects say nothing about the real code and flip with unrelated code layout
+        hres.ignored = getattr(hres, "ignored", 0) + 1
+        return
     hres.safety_total += 1
     if status == "Failure":
         if cat == "unwind" or "unwinding assertion" in desc:
